@@ -316,7 +316,15 @@ func authenticateConnection(p2id participant2ID, conn net.Conn, logger Logger) (
 	sig := h.Signature
 	h.Signature = nil
 
-	if !ecdsa.VerifyASN1(pk, sha256Digest(h.Bytes()), sig) {
+	// What was received need not be something we can encode ourselves
+	// (e.g. a domain given as a T61String that is not valid UTF-8).
+	signedBytes, err := asn1.Marshal(h)
+	if err != nil {
+		logger.Warnf("Handshake received from %s cannot be encoded: %v", conn.RemoteAddr().String(), err)
+		return "", 0, false
+	}
+
+	if !ecdsa.VerifyASN1(pk, sha256Digest(signedBytes), sig) {
 		logger.Warnf("Signature mismatch")
 		return "", 0, false
 	}
